@@ -207,3 +207,39 @@ Proof.
       replace (w / bw * bw + j <? w) with false by (symmetry; apply Nat.ltb_ge; lia). f_equal. lia.
 Qed.
 End Positions.
+
+Lemma skipn_app_exact {Y} (a b : list Y) n : n <= length a -> skipn n (a ++ b) = skipn n a ++ b.
+Proof. intros H. rewrite skipn_app. replace (n - length a) with 0 by lia. reflexivity. Qed.
+Lemma skipn_app_past {Y} (a b : list Y) n : length a <= n -> skipn n (a ++ b) = skipn (n - length a) b.
+Proof. intros H. rewrite skipn_app. rewrite (skipn_all2 a) by assumption. reflexivity. Qed.
+Lemma firstn_app_within {Y} (a b : list Y) n : n <= length a -> firstn n (a ++ b) = firstn n a.
+Proof. intros H. rewrite firstn_app. replace (n - length a) with 0 by lia. rewrite firstn_O, app_nil_r. reflexivity. Qed.
+
+(* ---- fragments (C14): gathering the blocks of the first k * bh rows and of the rest separately gives the blocks of the
+   whole surface - the block encoders see the same blocks whether a surface is encoded at once or in fragments whose
+   heights are multiples of the block height *)
+Section Fragments.
+Variables (X : Type) (bw bh : nat) (d : X).
+Hypothesis Hbh : 1 <= bh.
+Theorem row_buffers_app (a b : list (list X)) k : length a = k * bh -> row_buffers X bh (a ++ b) = row_buffers X bh a ++ row_buffers X bh b.
+Proof.
+  intros Ha. unfold row_buffers. rewrite app_length, Ha.
+  assert (Hq : (k * bh + length b) / bh = k + length b / bh) by (rewrite Nat.add_comm, Nat.div_add by lia; lia).
+  assert (Hr : (k * bh + length b) mod bh = length b mod bh) by (rewrite Nat.add_comm, Nat.mod_add by lia; reflexivity).
+  rewrite Hq, Hr. rewrite Nat.div_mul, Nat.mod_mul by lia. cbn [Nat.eqb]. rewrite app_nil_r.
+  rewrite seq_app, map_app, <- app_assoc. f_equal; [|f_equal].
+  - apply map_ext_in. intros i Hi. apply in_seq in Hi. unfold group.
+    rewrite skipn_app_exact by (rewrite Ha; nia). apply firstn_app_within. rewrite skipn_length, Ha. nia.
+  - cbn [Nat.add].
+    assert (Hs : seq k (length b / bh) = map (Nat.add k) (seq 0 (length b / bh))).
+    { clear. generalize (length b / bh) as n. intros n. revert k. induction n as [|n IH]; intros k; [reflexivity|]. cbn [seq map]. rewrite Nat.add_0_r. f_equal.
+      rewrite (IH (S k)), <- seq_shift, map_map. apply map_ext. intros x. lia. }
+    rewrite Hs, map_map. apply map_ext. intros t. unfold group. f_equal.
+    rewrite skipn_app_past by (rewrite Ha; nia). f_equal. rewrite Ha. nia.
+  - destruct (length b mod bh =? 0); [reflexivity|]. f_equal.
+    rewrite skipn_app_past by (rewrite Ha; nia). replace ((k + length b / bh) * bh - length a) with (length b / bh * bh) by (rewrite Ha; nia). reflexivity.
+Qed.
+Theorem image_blocks_app w (a b : list (list X)) k : length a = k * bh ->
+  image_blocks X bw bh d w (a ++ b) = image_blocks X bw bh d w a ++ image_blocks X bw bh d w b.
+Proof. intros Ha. unfold image_blocks. rewrite (row_buffers_app a b k Ha). apply flat_map_app. Qed.
+End Fragments.
